@@ -25,7 +25,10 @@ func init() {
 	// (shapes), fewer targets with more delays (schedules)
 	vpRegister("vpH_C05_run_shapes", vpH_C05_run_shapes)
 	vpRegister("vpH_C05_run_schedules", vpH_C05_run_schedules)
+	vpRegister("vpH_C05_run_subinclude", vpH_C05_run_subinclude)
 }
+
+func vpH_C05_run_subinclude() { vpC05Run() }
 
 func vpH_C05_run_shapes()    { vpC05Run() }
 func vpH_C05_run_schedules() { vpC05Run() }
@@ -38,6 +41,7 @@ type vpC05Spec struct {
 	fails    []bool
 	missing  int  // target with an extra dependency on //b:nope, or -1
 	parseErr bool // package b does not parse
+	subinc   bool // b/BUILD starts with subinclude("//a:t3")
 	calls    []int
 	finals   []int // final results seen by the monitor, per target
 	other    int   // failure results not about one of the spec's targets
@@ -63,6 +67,21 @@ func vpModelParsePackage(state *core.BuildState, label, dependent core.BuildLabe
 		return nil, fmt.Errorf("syntax error in b/BUILD")
 	}
 	pkg := core.NewPackage(label.PackageName)
+	if label.PackageName == "b" && s.subinc {
+		// what asp's subinclude() does before it reads the file: activate the target
+		// if it is known, then wait for it to be built
+		l := s.labels[3]
+		pkgLabel := core.BuildLabel{PackageName: "b", Name: "all"}
+		if t := state.Graph.Target(l); t != nil && t.State() < core.Active {
+			if err := state.ActivateTarget(pkg, l, pkgLabel, mode|core.ParseModeForSubinclude); err != nil {
+				return nil, err
+			}
+		}
+		if t := state.WaitForTargetAndEnsureDownload(l, pkgLabel, false); t == nil {
+			return nil, fmt.Errorf("subinclude of %s failed", l)
+		}
+		pkg.RegisterSubinclude(l)
+	}
 	for i, l := range s.labels {
 		if l.PackageName != label.PackageName {
 			continue
@@ -179,6 +198,9 @@ func vpC05Run() {
 			s.deps[i][j] = vpNondetBool("edge")
 		}
 	}
+	if vpBound("subincludes") > 0 && n >= 4 {
+		s.subinc = vpNondetBool("b-subincludes-a:t3")
+	}
 	cyclic := false
 	if vpBound("cycles") > 0 && n >= 3 && vpNondetBool("back-edge") {
 		// t2 -> t1: a cycle exactly when t1 -> t2 is present too
@@ -215,6 +237,9 @@ func vpC05Run() {
 	done := make(chan bool, 1)
 	go vpMonitor(state, results, done)
 
+	// known finding: a cycle that goes through a subinclude (the package being
+	// parsed waits for a target that waits for the package) is not detected
+	vpKnownDeadlock("cycle-through-a-subinclude-not-detected", s.subinc && s.missing == 3)
 	Run([]core.BuildLabel{s.labels[0]}, nil, state, config, cli.HostArch())
 	<-done // Run closed the results: the monitor has seen everything
 
@@ -233,6 +258,19 @@ func vpC05Run() {
 		}
 	}
 	visit(0)
+	// package b is parsed when something needed lives there (also the missing
+	// //b:nope); parsing it needs //a:t3, and what that depends on, built first
+	parsesB := func() bool {
+		for i := 0; i < n; i++ {
+			if reach[i] && (s.labels[i].PackageName == "b" || s.missing == i) {
+				return true
+			}
+		}
+		return false
+	}
+	if s.subinc && parsesB() {
+		visit(3)
+	}
 	mustFail := false
 	for i := 0; i < n; i++ {
 		if !reach[i] {
@@ -248,6 +286,7 @@ func vpC05Run() {
 	if cyclic && reach[1] {
 		mustFail = true
 	}
+	subincFailed := s.subinc && parsesB() && (s.fails[3] || s.missing == 3)
 	failed, _, _ := state.Failures()
 	vpAssert("reports-failure-exactly-when-something-needed-cannot-be-built", failed == mustFail)
 	for i := 0; i < n; i++ {
@@ -267,7 +306,7 @@ func vpC05Run() {
 			}
 		}
 	}
-	if mustFail && state.KeepGoing && !s.parseErr && !cyclic && s.missing < 0 {
+	if mustFail && state.KeepGoing && !s.parseErr && !cyclic && s.missing < 0 && !subincFailed {
 		// --keep_going: everything not downstream of a failure still builds
 		for i := 0; i < n; i++ {
 			if !reach[i] {
